@@ -191,6 +191,19 @@ Theorem C07_fresh_names_fixed : forall k used,
 Proof. exact fresh_names_fixed. Qed.
 Print Assumptions C07_fresh_names_fixed.
 
+(* the counter restarts for every model (fix bb7dec3): the names created for a model are a function of the model and the rule
+   set alone, not of what the RewriteRuleSet object rewrote before ... *)
+Theorem C07_names_function_of_model_fixed : forall c1 c2 used k,
+  names_created true c1 used k = names_created true c2 used k.
+Proof. exact names_function_of_model_fixed. Qed.
+Print Assumptions C07_names_function_of_model_fixed.
+
+(* ... which was false of the counter carried over from earlier models *)
+Theorem C07_names_function_of_model_refuted :
+  exists c1 c2 used k, names_created false c1 used k <> names_created false c2 used k.
+Proof. exact names_function_of_model_refuted. Qed.
+Print Assumptions C07_names_function_of_model_refuted.
+
 (* hypotheses satisfiable: one application inside an If branch doing everything at once (new domain, new initializer,
    function extraction with a second overload, rule-name tag merged with an earlier one, metadata of the neighbours kept) *)
 Theorem C07_step_example :
@@ -253,11 +266,4 @@ Theorem C07_returned_value_fixed : forall created pinned is_fwd olds news vs out
 Proof. exact returned_value_fixed. Qed.
 Print Assumptions C07_returned_value_fixed.
 
-(* ... and, for one pattern output, the graph outputs keep their names in order.  Partial: several pattern outputs at once
-   are not covered by this statement (the correspondence observes them on the real code only for one output) *)
-Theorem C07_returned_value_fixed_output_names_partial : forall created pinned o n vs outs fresh r,
-  splice_names true created pinned false [o] [n] vs outs fresh = Some r ->
-  (forall y, In y outs -> In y pinned /\ ~ In y created /\ y < fresh) ->
-  names_of_objects (snd (fst (fst r))) (fst (fst (fst r))) = names_of_objects outs vs.
-Proof. exact returned_value_fixed_output_names_single. Qed.
-Print Assumptions C07_returned_value_fixed_output_names_partial.
+(* (the names of the graph outputs, several pattern outputs at once: C07_returned_value_fixed_output_names in Props/C07_fn.v) *)
